@@ -15,6 +15,16 @@ with the extracted Coq machine `Protocol.fit_cbs` run on the same script (`c12_f
 no-op handler that is still called: in the model it is a callback that never raises, and its deliveries are simply
 not observable.)
 
+Regimes added after red-team round 2 (all inside "a stop requested during a batch or at an epoch end", "histories",
+"configurations"): integer arguments handed over as numpy integers (np.int64 / np.int32 / an element of an integer
+array) instead of Python ints; LambdaCallback hooks that are bound methods, functools.partial objects, callable
+instances and nested functions with a closure (any callable of the documented arity); k = 0..3; a stop requested not by
+a callback but by the user's optimizer (inside a batch) or scheduler (at the end of an epoch), with and WITHOUT
+callbacks; histories in which an earlier run on the same object was aborted by an exception raised in a callback
+(KeyboardInterrupt / RuntimeError, caught by the caller) before an ordinary run.  For the model a request raised by the
+optimizer in batch (e, b) is the request of a callback at BatchStart e b, one raised by the scheduler in epoch e is the
+request of a callback at EpochEnd e (same flag at every later poll).
+
 Oracle (independent of model and code; demands only what the property statement says): a Python recogniser of the
 documented grammar, the reference full run, the stop rules, "parameters identical between consecutive events unless
 they are BatchStart e b -> BatchEnd e b", optimizer/scheduler step counts (C06), optimizer.step inside its batch,
@@ -24,10 +34,12 @@ list order.
 Informational only (histogram keys `info:*`, never a verdict): what is printed (Timer wording, number of lines,
 "prints nothing"), the return value of fit, whether every batch moved the parameters, the setter's treatment of
 borderline values (0, 1, numpy.bool_) and the class of the exception it raises."""
-import io, time as _time, contextlib, itertools
+import io, time as _time, contextlib, itertools, functools
 import numpy as np
 
-RULE = ("fixed regimes first (N = 0 rows, arguments left at their defaults incl. starting_epoch, 2-3 fit calls on one object with and without a flag reset, the same callback object listed twice), then "
+RULE = ("fixed regimes first (N = 0 rows, arguments left at their defaults incl. starting_epoch, 2-3 fit calls on one object with and without a flag reset, the same callback object listed twice, "
+        "numpy-integer arguments, stop requested by the optimizer / scheduler with and without callbacks, a run aborted by an exception in a callback followed by ordinary runs, "
+        "LambdaCallback hooks as bound method / partial / callable instance / closure, k = 0, 2, 3), then "
         "ALL scripts with starting_epoch in {1,3}, epochs 0..3 (quick) / 0..4 (thorough), batches per epoch 0..3 / 0..4 (0 = no rows, positive state) "
         "(N and pos_batch_size chosen to give that count, dividing and non-dividing, neg_batch_size varied), "
         "a stop raised at every callback-event index of the run or never, by callback 0 of 1, or callback 0 / 1 of 2 "
@@ -38,7 +50,8 @@ RULE = ("fixed regimes first (N = 0 rows, arguments left at their defaults incl.
         "thorough: full product + random larger scripts incl. negative/zero epochs), plus stop pre-set (explicitly and by "
         "persistence from a previous stopped run), runs without callbacks, and a malformed stream for the stop_training "
         "setter; non-trivial := at least one epoch runs")
-ASSUMPTIONS = ["callbacks only ever raise stop_training (a callback that lowers it is outside the property)",
+ASSUMPTIONS = ["callbacks, optimizer and scheduler only ever raise stop_training (lowering it during a run is outside the property)",
+               "integer arguments are Python ints or numpy integers (np.int64 / np.int32); floats, strings and other number-likes are not generated",
                "the recording optimizer is SGD with lr = 0.1 and weight_decay = 0.05 (passed through optimizer_args), so every "
                "optimizer.step moves the non-zero weights even when the CD gradient of a tiny batch happens to cancel exactly",
                "the Timer appended by time=True is not observed (what it prints is informational only); that time=True leaves "
@@ -63,6 +76,9 @@ class Tape:
         self.deliveries = []     # (callback index, code, e, b)
         self.zero_grad_steps = 0
         self.nvis = 0            # callback events recorded so far (by callback 0)
+        self.n_opt = 0           # optimizer steps so far
+        self.n_sched = 0         # scheduler steps so far
+        self.abort_exc = None    # the exception object a scripted callback raised (aborted run)
 
     def snap(self):
         return self.torch.cat([p.detach().reshape(-1) for p in self.params]).clone()
@@ -87,6 +103,49 @@ ALL6 = (TS, ES, BS, BE, EE, TE)
 HOOK = {TS: "on_train_start", TE: "on_train_end", ES: "on_epoch_start", EE: "on_epoch_end", BS: "on_batch_start", BE: "on_batch_end"}
 SUBSETS = [ALL6, (TS, EE, TE), (ES, BS, BE), (BE, EE), (BS,), (TS, BS, BE, EE, TE), (EE,), (ES, TE)]
 EXTRAS = [[], [("lambda", ())], [("base", (EE,))], [("bare", ()), ("lambda", (BE,))], [("base", (BS, TE))], [("lambda", ALL6)]]
+
+
+HOOK_KINDS = ["plain lambda", "bound method", "functools.partial", "callable instance", "closure"]
+ABORT_EXC = {"KeyboardInterrupt": KeyboardInterrupt, "RuntimeError": RuntimeError}
+INT_TYPES = ["int", "numpy.int64", "numpy.int32", "element of an integer array"]
+
+
+def as_int_type(v, itype):
+    """An integer argument in the encoding `itype` (None stays None)."""
+    if v is None or not itype:
+        return v
+    if itype == 1:
+        return np.int64(v)
+    if itype == 2:
+        return np.int32(v)
+    return np.arange(v + 1)[v] if v >= 0 else np.array([v])[0]
+
+
+def eff_raise(case):
+    """Index (in the callback-visible trace of the full run) of the event at which the scripted stop request takes
+    effect, or -1 if nobody asks to stop in this run.  A request by the optimizer in its n-th step = batch (e, b) is
+    seen by the same polls as one made at BatchStart e b; one by the scheduler in its n-th step = epoch e as one made
+    at EpochEnd e."""
+    if case.get("abort"):
+        return -1
+    start, epochs = case["start"], case["epochs"]
+    nb = -(-case["N"] // case["bs"])
+    full = full_run(start, epochs, nb)
+    who = case.get("int_raiser", "")
+    if who:
+        n = case.get("int_at", -1)
+        n_ep = max(0, epochs + 1 - start)
+        if who == "opt":
+            if n < 0 or n >= n_ep * nb:
+                return -1
+            return full.index((BS, start + n // nb, n % nb))
+        if not case["sched"] or n < 0 or n >= n_ep:
+            return -1
+        return full.index((EE, start + n, 0))
+    r = case["raise_at"]
+    if r < 0 or case["raiser"] >= case["ncb"] or r >= len(full):
+        return -1
+    return r
 
 
 def callback_forms(case):
@@ -136,6 +195,9 @@ def make_callbacks(tape, case):
         k = tape.nvis - 1          # ordinal of the current callback event (callback 0 always runs first)
         tape.deliveries.append((j, code, e, b))
         if j == raiser and k == raise_i:
+            if case.get("abort"):                      # the run is aborted by an exception the caller catches
+                tape.abort_exc = ABORT_EXC[case["abort"]]("scripted abort in a callback")
+                raise tape.abort_exc
             nn_state.stop_training = True
 
     def hook_fn(j, code, bound):
@@ -147,6 +209,29 @@ def make_callbacks(tape, case):
             f = (lambda self, s, ep, b: handle(j, s, code, ep, b)) if bound else (lambda s, ep, b: handle(j, s, code, ep, b))
         return f
 
+    def lambda_hook(j, code):
+        """The hook handed to LambdaCallback, in rotating kinds of callable (all of the documented arity)."""
+        kind = HOOK_KINDS[(case.get("hk", 0) + j + code) % len(HOOK_KINDS)]
+        if kind == "plain lambda":
+            return hook_fn(j, code, False)
+        if kind == "bound method":                     # on_epoch_end=logger.log
+            return type("Log%d" % j, (), {"log": hook_fn(j, code, True)})().log
+        if kind == "functools.partial":
+            return functools.partial(hook_fn(j, code, True), object())
+        if kind == "callable instance":
+            return type("Call%d" % j, (), {"__call__": hook_fn(j, code, True)})()
+        inner = hook_fn(j, code, False)                # nested function with a closure
+        if code in (TS, TE):
+            def closure_hook(s):
+                return inner(s)
+        elif code in (ES, EE):
+            def closure_hook(s, ep):
+                return inner(s, ep)
+        else:
+            def closure_hook(s, ep, b):
+                return inner(s, ep, b)
+        return closure_hook
+
     out = []
     for j, (form, hooks) in enumerate(callback_forms(case)):
         if form == "bare":
@@ -155,11 +240,11 @@ def make_callbacks(tape, case):
             cls = type("Rec%d" % j, (CallbackBase,), {HOOK[c]: hook_fn(j, c, True) for c in hooks})
             out.append(cls())
         else:
-            out.append(LambdaCallback(**{HOOK[c]: hook_fn(j, c, False) for c in hooks}))
+            out.append(LambdaCallback(**{HOOK[c]: lambda_hook(j, c) for c in hooks}))
     return [out[j] for j in callback_positions(case)]
 
 
-def make_optimizer(tape):
+def make_optimizer(tape, case=None):
     import torch
 
     class RecSGD(torch.optim.SGD):
@@ -167,17 +252,23 @@ def make_optimizer(tape):
             tape.zero_grad_steps += int(all(p.grad is None or not bool(p.grad.any()) for p in tape.params))
             r = super().step(closure)
             tape.internal(OPT)
+            if case is not None and case.get("int_raiser") == "opt" and tape.n_opt == case.get("int_at", -1):
+                tape.state.stop_training = True        # a stop requested during a batch, not by a callback
+            tape.n_opt += 1
             return r
     return RecSGD
 
 
-def make_scheduler(tape):
+def make_scheduler(tape, case=None):
     class RecSched:
         def __init__(self, optimizer, **kw):
             self.optimizer = optimizer
 
         def step(self):
             tape.internal(SCHED)
+            if case is not None and case.get("int_raiser") == "sched" and tape.n_sched == case.get("int_at", -1):
+                tape.state.stop_training = True        # a stop requested at the end of an epoch, not by a callback
+            tape.n_sched += 1
     return RecSched
 
 
@@ -245,9 +336,10 @@ def drive(case, state=None):
         s.stop_training = True
     before = tape.snap()
     flag_before = s.stop_training
-    kw = dict(epochs=case["epochs"], pos_batch_size=case["bs"], neg_batch_size=case["neg_bs"], k=1, lr=0.1,
-              starting_epoch=case["start"], time=case["time"], callbacks=(cbs if m else ([] if fv % 2 else None)),
-              optimizer=make_optimizer(tape), optimizer_args={"weight_decay": 0.05})
+    I = lambda v: as_int_type(v, case.get("itype", 0))
+    kw = dict(epochs=I(case["epochs"]), pos_batch_size=I(case["bs"]), neg_batch_size=I(case["neg_bs"]), k=I(case.get("k", 1)), lr=0.1,
+              starting_epoch=I(case["start"]), time=case["time"], callbacks=(cbs if m else ([] if fv % 2 else None)),
+              optimizer=make_optimizer(tape, case), optimizer_args={"weight_decay": 0.05})
     if case.get("defaults"):
         # every argument that has its documented default value is left out (starting_epoch=1, time=False,
         # neg_batch_size=None, k=1, callbacks=None, epochs=100, pos_batch_size=100; lr takes its default too)
@@ -259,7 +351,7 @@ def drive(case, state=None):
         if not m:
             del kw["callbacks"]
     if case["sched"]:
-        kw["scheduler"] = make_scheduler(tape)
+        kw["scheduler"] = make_scheduler(tape, case)
     if bases is not None:
         kw["input_bases"] = bases
     if fv % 16 == 5:
@@ -269,8 +361,14 @@ def drive(case, state=None):
         args += [kw.pop("epochs"), kw.pop("pos_batch_size")]      # fit(data, epochs, pos_batch_size, ...)
     buf = io.StringIO()
     torch.manual_seed(case["dseed"] + 1)
+    ret, aborted = None, False
     with contextlib.redirect_stdout(buf), contextlib.redirect_stderr(io.StringIO()):
-        ret = s.fit(*args, **kw)
+        try:
+            ret = s.fit(*args, **kw)
+        except BaseException as ex:
+            if tape.abort_exc is None or ex is not tape.abort_exc:
+                raise
+            aborted = True                             # the caller catches the exception its callback raised
     after = tape.snap()
     # versions: number of parameter changes seen so far
     log, v, prev = [], 0, before
@@ -282,7 +380,7 @@ def drive(case, state=None):
     tmsgs, other = parse_timer(buf.getvalue())
     return {"state_obj": s, "zero_grad_steps": tape.zero_grad_steps, "log": log, "timeline": tape.timeline, "before": before, "after": after,
             "flag_before": flag_before, "flag": s.stop_training, "deliveries": [list(map(int, d)) for d in tape.deliveries],
-            "timer": tmsgs, "other_output": other, "ret": ret}
+            "timer": tmsgs, "other_output": other, "ret": ret, "aborted": aborted}
 
 
 # ----------------------------------------------------------------------------- the independent oracle
@@ -344,6 +442,12 @@ def oracle(ctx, case, obs):
     R = lambda what, ok, detail="": ctx.require(what, bool(ok), case, detail)
     show = lambda t: [(NAMES[c], e, b) for c, e, b in t][:40]
 
+    if obs.get("aborted"):
+        # a callback raised an exception and the caller caught it: nothing is demanded of the aborted run beyond
+        # causality (what was emitted before the exception is the beginning of the full run)
+        want = full_run(start, epochs, nb)[:case["raise_at"] + 1]
+        R("aborted run: the events emitted before the exception are those of the full run", vis == want, {"got": show(vis), "want": show(want)})
+        return
     if pre:
         R("pre-stopped run emits no event and takes no optimizer/scheduler step", len(tl) == 0 and not obs["deliveries"], show([(c, e, b) for c, e, b, _ in tl]))
         R("pre-stopped run changes no parameter", torch.equal(obs["before"], obs["after"]))
@@ -355,9 +459,22 @@ def oracle(ctx, case, obs):
         n_opt = sum(1 for c, *_ in tl if c == OPT)
         n_sch = sum(1 for c, *_ in tl if c == SCHED)
         n_ep = max(0, epochs + 1 - start)
-        R("without callbacks: one optimizer step per batch of every epoch", n_opt == n_ep * nb, (n_opt, n_ep, nb))
-        R("without callbacks: one scheduler step per epoch", n_sch == (n_ep if case["sched"] else 0), (n_sch, n_ep))
-        R("flag stays down when nobody asks to stop", obs["flag"] is False)
+        if eff_raise(case) < 0:
+            R("without callbacks: one optimizer step per batch of every epoch", n_opt == n_ep * nb, (n_opt, n_ep, nb))
+            R("without callbacks: one scheduler step per epoch", n_sch == (n_ep if case["sched"] else 0), (n_sch, n_ep))
+            R("flag stays down when nobody asks to stop", obs["flag"] is False)
+        else:
+            # the user's optimizer / scheduler asks to stop (public stop_training setter) and there is no callback
+            n = case["int_at"]
+            if case["int_raiser"] == "opt":            # during batch n % nb of epoch number n // nb of the run
+                want_opt, want_ep, when = n + 1, n // nb + 1, "during a batch (by the optimizer)"
+            else:                                      # at the end of epoch number n of the run
+                want_opt, want_ep, when = (n + 1) * nb, n + 1, "at an epoch end (by the scheduler)"
+            R("without callbacks, stop requested %s: no further batch or epoch begins (optimizer steps)" % when,
+              n_opt == want_opt, {"optimizer steps": n_opt, "expected": want_opt})
+            R("without callbacks, stop requested %s: the scheduler steps once per epoch begun" % when,
+              n_sch == (want_ep if case["sched"] else 0), {"scheduler steps": n_sch, "epochs begun": want_ep})
+            R("without callbacks, stop requested %s: the request persists" % when, obs["flag"] is True)
         return
 
     # ---- grammar
@@ -368,9 +485,10 @@ def oracle(ctx, case, obs):
 
     # ---- stop rules
     full = full_run(start, epochs, nb)
-    r = case["raise_at"]
-    raised = (r >= 0 and case["raiser"] < m and r < len(vis))
-    if r < 0 or case["raiser"] >= m or r >= len(full):
+    r = eff_raise(case)
+    who = case.get("int_raiser", "")
+    raised = (0 <= r < len(vis))
+    if r < 0:
         R("no stop request: every epoch start..epochs with all its batches", vis == full, {"got": show(vis), "want": show(full)})
     else:
         R("the run reaches the event at which the stop is requested", raised, {"got": show(vis), "index": r})
@@ -380,13 +498,13 @@ def oracle(ctx, case, obs):
         X = vis[r]
         rest = vis[r + 1:]
         if X[0] == BS:
-            R("stop during a batch (raised at BatchStart): only its BatchEnd, the EpochEnd and TrainEnd follow",
+            R("stop during a batch (raised %s): only its BatchEnd, the EpochEnd and TrainEnd follow" % ("by the optimizer" if who else "at BatchStart"),
               rest == [(BE, X[1], X[2]), (EE, X[1], 0), (TE, 0, 0)], show(rest))
         elif X[0] == BE:
             R("stop during a batch (raised at BatchEnd): only the EpochEnd and TrainEnd follow",
               rest == [(EE, X[1], 0), (TE, 0, 0)], show(rest))
         elif X[0] == EE:
-            R("stop at an epoch end: only TrainEnd follows", rest == [(TE, 0, 0)], show(rest))
+            R("stop at an epoch end%s: only TrainEnd follows" % (" (raised by the scheduler)" if who else ""), rest == [(TE, 0, 0)], show(rest))
         elif X[0] in (ES, TS):
             R("stop at train/epoch start: at most the one following batch runs",
               sum(1 for x in rest if x[0] == BS) <= 1 and sum(1 for x in rest if x[0] == ES) <= (1 if X[0] == TS else 0)
@@ -447,11 +565,16 @@ def model_run(ctx, case):
     m = ctx.get_model()
     nb = int(m.call("c12_num_batches", case["N"], case["bs"]))
     raiser = case["raiser"]
-    r = case["raise_at"] if (case["raise_at"] >= 0 and raiser < case["ncb"]) else -1
+    r = case["raise_at"] if (case["raise_at"] >= 0 and raiser < case["ncb"] and not case.get("abort")) else -1
     pre = 1 if case["prestopped"] else 0
     total = len(callback_positions(case))      # list positions: user callbacks + passive extras (+ a repeated object)
+    jr = raiser if raiser < case["ncb"] else total
+    if case.get("int_raiser"):
+        # a request by the optimizer / scheduler: in the model, callback 0 raises at the equivalent callback event
+        # (a virtual callback when the run has none: only the internal steps, flag and version are compared then)
+        r, jr, total = eff_raise(case), 0, max(total, 1)
     out = m.call("c12_fit", case["start"], case["epochs"], nb, pre, 1 if case["sched"] else 0, r,
-                 total, raiser if raiser < case["ncb"] else total, 1 if case["time"] else 0, 0)
+                 total, jr, 1 if case["time"] else 0, 0)
     log, stop, ver, dl, tm, rec = out
     I = lambda rows: [[int(x) for x in row] for row in rows]
     return {"nb": nb, "log": I(log), "stop": bool(stop), "ver": int(ver), "deliveries": I(dl), "timer": I(tm), "recognised": bool(rec)}
@@ -461,15 +584,24 @@ def run_case(ctx, case, state=None):
     nb_py = -(-case["N"] // case["bs"])
     n_ep = max(0, case["epochs"] + 1 - case["start"])
     desc = {k: case.get(k, 0) for k in ("state", "start", "epochs", "N", "bs", "neg_bs", "raise_at", "ncb", "raiser", "time", "sched", "prestopped", "fv",
-                                           "defaults", "positional", "data_form", "dup")}
+                                           "defaults", "positional", "data_form", "dup", "itype", "hk", "k", "int_raiser", "int_at", "abort")}
     desc["history"] = len(case.get("hist", []))
     ctx.case(desc, nontrivial=(n_ep >= 1 and not case["prestopped"]))
     ctx.count("state:" + case["state"]); ctx.count("nb:%d" % nb_py); ctx.count("epochs_run:%d" % n_ep)
     ctx.count("ncb:%d" % case["ncb"]); ctx.count("time:%s" % case["time"]); ctx.count("sched:%s" % case["sched"])
-    ctx.count("stop:" + ("preset" if case["prestopped"] else "never" if case["raise_at"] < 0 else "scripted"))
+    ctx.count("stop:" + ("preset" if case["prestopped"] else "run aborted by an exception in a callback" if case.get("abort") else
+                         "scripted, by the %s" % {"opt": "optimizer", "sched": "scheduler"}[case["int_raiser"]] if case.get("int_raiser") else
+                         "never" if case["raise_at"] < 0 else "scripted"))
+    ctx.count("integer arguments as:" + INT_TYPES[case.get("itype", 0)])
+    ctx.count("k:%d" % case.get("k", 1))
     forms = callback_forms(case)
-    for form, hooks in forms[1:]:
+    for j_, (form, hooks) in enumerate(forms):
+        if j_ == 0:
+            continue
         ctx.count("callback form:%s/%s" % (form, "all hooks" if len(hooks) == 6 else "no hook" if not hooks else "some hooks"))
+        if form == "lambda":
+            for c_ in hooks:
+                ctx.count("LambdaCallback hook given as:" + HOOK_KINDS[(case.get("hk", 0) + j_ + c_) % len(HOOK_KINDS)])
     if case["ncb"]:
         ctx.count("callbacks passed as:" + ("list", "tuple", "CallbackList")[case.get("fv", 0) % 3])
         ctx.count("progbar:%s" % (case.get("fv", 0) % 16 == 5))
@@ -481,6 +613,11 @@ def run_case(ctx, case, state=None):
     ok, obs = ctx.call("fit", case, drive, case, state)
     if not ok:
         return None
+    if obs["aborted"]:
+        # the model says nothing about a run cut short by an exception; the NEXT runs on this object are checked in full
+        oracle(ctx, case, obs)
+        ctx.traces += 1
+        return obs
     mod = model_run(ctx, case)
     m = case["ncb"]
     ctx.count("optimizer steps with an exactly zero CD gradient", obs["zero_grad_steps"])
@@ -510,9 +647,12 @@ def run_case(ctx, case, state=None):
 
 
 def mk(kind, start, epochs, N, bs, raise_at=-1, ncb=1, raiser=0, time=False, sched=False, prestopped="", neg_bs=None, dseed=11, fv=0,
-       defaults=None, positional=None, data_form=None, dup=None):
+       defaults=None, positional=None, data_form=None, dup=None, itype=None, hk=None, k=None, int_raiser="", int_at=-1, abort=""):
     fv = int(fv)
-    return {"defaults": bool(fv % 2 == 1 if defaults is None else defaults),
+    return {"itype": int((1 if fv % 11 == 4 else 2 if fv % 11 == 8 else 3 if fv % 13 == 6 else 0) if itype is None else itype),
+            "hk": int(fv % 5 if hk is None else hk), "k": int([1, 1, 1, 2, 1, 3, 1, 0][fv % 8] if k is None else k),
+            "int_raiser": int_raiser, "int_at": int(int_at), "abort": abort,
+            "defaults": bool(fv % 2 == 1 if defaults is None else defaults),
             "positional": bool(fv % 5 == 2 if positional is None else positional),
             "data_form": (("tensor" if fv % 4 == 2 else "numpy") if data_form is None else data_form),
             "dup": int((1 if fv % 7 == 3 else 2 if fv % 7 == 5 else 0) if dup is None else dup),
@@ -566,6 +706,9 @@ def extras(ctx):
             # no callbacks at all
             yield ("single", mk(kind, start, epochs, N, bs, -1, 0, 0, False, True, fv=fv))
             yield ("single", mk(kind, start, epochs, N, bs, -1, 0, 0, False, False, fv=fv))
+            # no callbacks, and the scheduler / the optimizer asks to stop
+            yield ("single", mk(kind, start, epochs, N, bs, -1, 0, 0, False, True, fv=fv, int_raiser="sched", int_at=fv % 2))
+            yield ("single", mk(kind, start, epochs, N, bs, -1, 0, 0, bool(fv % 2), bool(fv % 3), fv=fv, int_raiser="opt", int_at=fv % 3))
             # the scripted index lies beyond the run / the raiser does not exist: nobody stops
             yield ("single", mk(kind, start, epochs, N, bs, 10 ** 3, 1, 0, True, True, fv=fv))
             yield ("single", mk(kind, start, epochs, N, bs, 1, 1, 1, False, True, fv=fv))
@@ -581,9 +724,19 @@ def random_case(ctx, kind=None):
     n_events = len(full_run(start, epochs, nb))
     r = int(rng.integers(-1, n_events))
     ncb = int(rng.integers(1, 4))
-    return mk(kind, start, epochs, N, bs, r, ncb, int(rng.integers(0, ncb)), bool(rng.integers(0, 2)), bool(rng.integers(0, 2)),
+    sched = bool(rng.integers(0, 2))
+    who, at = "", -1
+    if rng.integers(0, 5) == 0:                    # the stop is requested by the optimizer / the scheduler, with or without callbacks
+        who = ["opt", "sched"][int(rng.integers(0, 2))]
+        n_ep = max(0, epochs + 1 - start)
+        at = int(rng.integers(0, max(1, (n_ep * nb if who == "opt" else n_ep)) + 1))
+        sched = sched or who == "sched"
+        r = -1
+        ncb = int(rng.integers(0, 3))
+    return mk(kind, start, epochs, N, bs, r, ncb, int(rng.integers(0, max(ncb, 1))), bool(rng.integers(0, 2)), sched,
               neg_bs=([None, 1, bs + 2][int(rng.integers(0, 3))] if N else None), dseed=int(rng.integers(1, 10 ** 6)),
-              fv=int(rng.integers(0, 420)))
+              fv=int(rng.integers(0, 420)), itype=(int(rng.integers(1, 4)) if rng.integers(0, 3) == 0 else 0),
+              hk=int(rng.integers(0, 5)), k=int(rng.choice([1, 1, 2, 3, 0])), int_raiser=who, int_at=at)
 
 
 def random_cases(ctx, n):
@@ -593,6 +746,9 @@ def random_cases(ctx, n):
         first = random_case(ctx)
         if ctx.rng.integers(0, 3) == 0:
             steps = [(first, None)]
+            if ctx.rng.integers(0, 3) == 0 and not first["int_raiser"]:
+                # the first run of the history is aborted by an exception raised in a callback
+                first["abort"] = ["KeyboardInterrupt", "RuntimeError"][int(ctx.rng.integers(0, 2))]
             for _ in range(int(ctx.rng.integers(1, 3))):
                 steps.append((random_case(ctx, first["state"]), [None, "reset"][int(ctx.rng.integers(0, 2))]))
             yield ("history", steps)
@@ -765,6 +921,44 @@ def fixed_first(ctx):
                 fv += 1
                 yield ("single", mk(kind, 1, 2, 3, 2, r, 2, raiser, bool(fv % 2), bool(fv % 3 == 0), fv=6 * fv, dup=dup))
                 yield ("single", mk(kind, 3, 3, 2, 2, r, 1, 0, False, True, fv=6 * fv + 5, dup=dup))
+    # ================= regimes of red-team round 2 =================
+    P = dict(itype=0, k=1, dup=0, defaults=False, positional=False)          # everything else plain
+    for kind in ("positive", "complex", "mixed"):
+        # ---- integer arguments as numpy integers (epochs, starting_epoch, pos/neg batch size, k): same protocol
+        for itype in (1, 2, 3):
+            for (start, epochs, N, bs, r, neg) in ((1, 2, 3, 2, -1, None), (2, 3, 3, 2, 4, 3), (3, 2, 3, 1, -1, None)):
+                fv += 1
+                yield ("single", mk(kind, start, epochs, N, bs, r, 2, fv % 2, False, bool(fv % 2), neg_bs=neg, fv=fv,
+                                    **dict(P, itype=itype, k=1 + fv % 2, defaults=bool(itype == 3))))
+        # ---- a stop requested by the optimizer (during a batch) / the scheduler (at an epoch end), WITHOUT and with callbacks
+        for ncb in (0, 1, 2):
+            for time in ((False, True) if ncb == 0 else (False,)):
+                fv += 1
+                yield ("single", mk(kind, 1, 4, 3, 2, -1, ncb, 0, time, True, fv=2 * fv, int_raiser="sched", int_at=0, **P))
+                yield ("single", mk(kind, 2, 4, 3, 2, -1, ncb, 0, time, True, fv=2 * fv, int_raiser="sched", int_at=1, **P))
+                yield ("single", mk(kind, 1, 3, 3, 2, -1, ncb, 0, time, bool(fv % 2), fv=2 * fv, int_raiser="opt", int_at=0, **P))
+                yield ("single", mk(kind, 1, 3, 5, 2, -1, ncb, 0, time, bool(fv % 2 == 0), fv=2 * fv, int_raiser="opt", int_at=4, **P))
+        yield ("history", [(mk(kind, 1, 3, 3, 2, -1, 0, 0, False, True, fv=0, int_raiser="sched", int_at=0, **P), None),   # persists ...
+                           (mk(kind, 1, 2, 3, 2, -1, 1, 0, False, True, fv=0, **P), None),                                # ... pre-stopped
+                           (mk(kind, 1, 2, 3, 2, -1, 1, 0, False, True, fv=0, **P), "reset")])
+        # ---- an earlier run on the object was aborted by an exception raised in a callback (caught by the caller)
+        full_idx = {"TS": 0, "BS": 2, "BE": 3, "EE": 6, "ES2": 7, "TE": 14}             # start 1, epochs 2, 2 batches per epoch
+        for (ev, exc, raiser) in (("EE", "KeyboardInterrupt", 1), ("BS", "RuntimeError", 0), ("TS", "KeyboardInterrupt", 0),
+                                  ("BE", "KeyboardInterrupt", 0), ("TE", "RuntimeError", 1), ("ES2", "RuntimeError", 1)):
+            fv += 1
+            aborted = mk(kind, 1, 2, 3, 2, full_idx[ev], 2, raiser, False, bool(fv % 2), fv=4 + 8 * (fv % 3), abort=exc, **P)
+            plain = lambda r_=-1, fv_=0: mk(kind, 1, 2, 3, 2, r_, 2, 0, False, True, fv=fv_, **P)
+            if ev in ("EE", "BS"):
+                yield ("history", [(aborted, None), (plain(), None), (plain(3, 6), None), (plain(-1, 12), "reset")])
+            else:
+                yield ("history", [(aborted, None), (plain(fv_=6 * (fv % 4)), None)])
+        # ---- LambdaCallback hooks: plain lambda / bound method / functools.partial / callable instance / closure
+        for hk in (range(5) if kind == "positive" else (1, 3)):
+            for fv_ in (5, 13, 21):                   # callback 1 = LambdaCallback with all six hooks; list / tuple / CallbackList
+                yield ("single", mk(kind, 1, 2, 3, 2, [-1, 3, 6][hk % 3], 2, 1, False, bool(hk % 2), fv=fv_, **dict(P, hk=hk)))
+        # ---- k (contrastive-divergence steps) other than 1
+        for k_ in (0, 2, 3):
+            yield ("single", mk(kind, 1, 2, 3, 2, [-1, 5, 2][k_ % 3], 1, 0, False, True, fv=0, **dict(P, k=k_)))
 
 
 def run(ctx):
